@@ -698,6 +698,8 @@ func FoldPredicate(fn *ssa.Function, fields map[string]int64) (res int64, ok boo
 	return FoldFunc(fn, fields, nil)
 }
 
+var foldDepth int
+
 // FoldFunc is FoldPredicate with given values for (some) parameters, by position.
 func FoldFunc(fn *ssa.Function, fields map[string]int64, params map[int]int64) (res int64, ok bool) {
 	if fn == nil || len(fn.Blocks) == 0 {
@@ -790,6 +792,12 @@ func FoldFunc(fn *ssa.Function, fields map[string]int64, params map[int]int64) (
 					return 0, false
 				}
 				val[x] = v
+			case *ssa.ChangeType:
+				v, ok := get(x.X)
+				if !ok {
+					return 0, false
+				}
+				val[x] = v
 			case *ssa.BinOp:
 				a, ok1 := get(x.X)
 				b, ok2 := get(x.Y)
@@ -854,6 +862,27 @@ func FoldFunc(fn *ssa.Function, fields map[string]int64, params map[int]int64) (
 					return 0, false
 				}
 				return get(x.Results[0])
+			case *ssa.Call:
+				// a tiny pure helper of the same package with foldable arguments
+				g := x.Call.StaticCallee()
+				if g == nil || g.Pkg != fn.Pkg || foldDepth > 2 {
+					return 0, false
+				}
+				ps := map[int]int64{}
+				for i, a := range x.Call.Args {
+					v, ok := get(a)
+					if !ok {
+						return 0, false
+					}
+					ps[i] = v
+				}
+				foldDepth++
+				v, ok := FoldFunc(g, fields, ps)
+				foldDepth--
+				if !ok {
+					return 0, false
+				}
+				val[x] = v
 			default:
 				return 0, false
 			}
